@@ -28,7 +28,9 @@ impl<A: AcceptableMasterList, C: Clock, F: Filter, R: Rng, S: PtpInstanceStateMu
         announce: crate::datastructures::messages::AnnounceMessage,
     ) -> PortActionIterator<'b> {
         // IEEE 1588-2019 9.5.3: Update according to table 33 (decision code S1)
+        // (an Announce with stepsRemoved >= 255 is never qualified, see 9.3.2.5 d)
         if matches!(self.port_state, PortState::Slave(_))
+            && announce.steps_removed < 255
             && announce.header.source_port_identity
                 == self
                     .instance_state
